@@ -19,9 +19,9 @@
   `thick_within_one_pixel_of_ends`, with the oracle's exact metrics, every line and width), and so is
   the "no hole" reading of the middle width (`thick_solid`: every lattice point within w/2 - 1 of the
   ideal line and at least 1 px inside both ends is a stroked pixel). The others:
-  -- [V] a stroked line stays within w/2 + 2.5 pixels of the ideal line, on the oblique strokes that have more `Extra` parallels than the guard of `thick_band_partial` allows but where the oracle does not attribute a failure to the known finding of the next line: carried by correspondence + oracle only (theorems of EG/Props/C17/Stroke.lean: `thick_band_axis_parallel_or_diagonal` - axis-parallel, diagonal and zero-length lines of every width, even within w/2 + 0.75; `thick_band_partial` - every stroke with 2 (D - d) E <= 7 D + d, E = number of Extra parallels, D/d = max/min(|dx|,|dy|); `thick_band_overcount_partial` - every stroke: distance <= w/2 + (3D - d)/(4L) + (E/2)(D - d)/L)
-  -- [V] [N] "a stroked line stays within w/2 + 2.5 pixels of the ideal line" for ALL widths is FALSE of the model and of the real code (KNOWN FINDING, class `C17:thick-band:wide-stroke-overcount`; kernel-decided witness `thick_band_false`: line (0,0)-(2,1) width 37, pixel (9,-19); on the real code from width 34, corpus/C17.ops): `next_parallel` skips an `Extra` perpendicular step without adding its thickness to the accumulator (`next_adds_one_step`, `skipped_step_not_counted`), wide oblique strokes are up to ~11 % too wide; the oracle reports every occurrence under that class exactly when each pixel is inside the band after the uncounted displacement min(|dx|,|dy|)/L per skipped step of its side is discounted, any other band failure keeps the class `C17:thick-band`
-  -- [V] a stroked line is at least w - 1 pixels wide at its middle, read as the perpendicular EXTENT of the middle slab ((max cross - min cross)^2 >= (w - 2)^2 L2 over the pixels whose projection is within one pixel of the midpoint; `Stroke.ThickMiddleWidth`): carried by correspondence + oracle only. Proved: the solid reading (`thick_solid`: no hole within w/2 - 1 of the line) and `thick_middle_width_partial` (the middle slab is never empty and its extent is at least w - 3, i.e. one pixel less than claimed, every line of non-zero length and every width); the last pixel is open because the real margin is under 0.01 px on lines like (0,0)-(175,3) width 59 and needs an exact count of the parallels
+  -- [V] a stroked line stays within w/2 + 2.5 pixels of the ideal line AS DRAWN (no discount), on the oblique strokes of width <= 33 that have more `Extra` parallels than the guard of `thick_band_partial` allows: carried by correspondence + oracle only (the oracle never saw a failure below width 34; the first real failure is at width 34, so no inequality with slack can close it). Proved in EG/Props/C17/Stroke.lean: `thick_band_with_skipped_discount` - EVERY line and width: with the skipped `Extra` steps of the pixel's side discounted (t = 2|cross| - 2 min(|dx|,|dy|) sk(side), the oracle's exact form and counters) every pixel is within w/2 + 1.25 px, hence within the oracle's attribution tolerance w/2 + 1.5 (`thick_band_overcount_explained_all`: on the model EVERY band failure is the known finding) and the text's w/2 + 2.5 (`thick_band_discounted_all`); `thick_band_axis_parallel_or_diagonal` - axis-parallel, diagonal and zero-length lines of every width, even within w/2 + 0.75 as drawn; `thick_band_partial` - as drawn, every stroke with 2 (D - d) E <= 7 D + d, E = number of Extra parallels, D/d = max/min(|dx|,|dy|); `thick_band_overcount_partial` - as drawn, every stroke: distance <= w/2 + (3D - d)/(4L) + (E/2)(D - d)/L
+  -- [V] [N] "a stroked line stays within w/2 + 2.5 pixels of the ideal line" for ALL widths is FALSE of the model and of the real code (KNOWN FINDING, class `C17:thick-band:wide-stroke-overcount`; kernel-decided witness `thick_band_false`: line (0,0)-(2,1) width 37, pixel (9,-19); on the real code from width 34, corpus/C17.ops): `next_parallel` skips an `Extra` perpendicular step without adding its thickness to the accumulator (`next_adds_one_step`, `skipped_step_not_counted`), wide oblique strokes are up to ~11 % too wide; the oracle reports every occurrence under that class exactly when each pixel is inside the band after the uncounted displacement min(|dx|,|dy|)/L per skipped step of its side is discounted, any other band failure keeps the class `C17:thick-band` (theorem `thick_band_overcount_explained_all`, EG/Props/C17/Stroke.lean: on the MODEL the discounted predicate holds for every stroke, even with 1.25 px, so the unsuffixed class can fire only on a stroke that departs from the model, which the correspondence would report as well)
+  -- [V] a stroked line is at least w - 1 pixels wide at its middle, read as the perpendicular EXTENT of the middle slab ((max cross - min cross)^2 >= (w - 2)^2 L2 over the pixels whose projection is within one pixel of the midpoint; `Stroke.ThickMiddleWidth`), on the oblique strokes outside the three proved regimes: carried by correspondence + oracle only. Proved (EG/Props/C17/Stroke.lean): the full claim for axis-parallel and diagonal lines of every width (`thick_middle_width_axis_parallel_or_diagonal`), for every stroke with enough Extra parallels, 5D + d - 2(D - d)E <= 4L (`thick_middle_width_extras_partial`), and for flat thin strokes, (w - 2) d^2 <= 2D (`thick_middle_width_flat_partial`) - together 83 % of all strokes with D <= 40, 3 <= w <= 40; for EVERY line of non-zero length and every width the solid reading (`thick_solid`: no hole within w/2 - 1 of the line) and `thick_middle_width_partial` (the middle slab is never empty and its extent is at least w - 3, one pixel less than claimed). The claim has no slack: on (0,0)-(D,1) with w = 2D the margin is (1 + 1/D)/L px (0.0084 px at D = 120, tending to 0; this family lies in the flat regime and is proved), so the rest needs the exact positions of the parallels' minor steps relative to the slab, not an inequality; no counterexample exists for max(|dx|,|dy|) <= 60 x w <= 40 (all octants), min <= 8 x max <= 120 x w <= 6 max/min + 10, max <= 40 x w <= 400 (searched on the real code)
 -/
 import EG.Lemmas.LineProps
 import EG.Lemmas.ThickWidth1
